@@ -15,9 +15,9 @@ import os
 import numpy as np
 
 PROP = 'C05'
-TARGETS = ['T1', 'T1b', 'T4', 'T11', 'T11b', 'T11c', 'T11d', 'T11e', 'T11f', 'T12']
+TARGETS = ['T1', 'T1b', 'T1c', 'T4', 'T11', 'T11b', 'T11c', 'T11d', 'T11e', 'T11f', 'T12']
 LEAN_MODULES = ['HdVerif.Props.C05']
-MODEL_MODULES = ['HdVerif.Model.FrameAccess', 'HdVerif.Model.EncapBytes']
+MODEL_MODULES = ['HdVerif.Model.FrameAccess', 'HdVerif.Model.EncapBytes', 'HdVerif.Model.FramePaths']
 NAMESPACE = 'HdVerif.C05'
 DRIVER = 'Drivers/C05.lean'
 RULE = ('images generated from (bits, signed, samples, frames, rows, cols, syntax, offset table) with random pixels; '
@@ -118,6 +118,9 @@ def _fetch(fn, *a, **k):
         return ('err', type(e).__name__)
 
 
+_NO_TRANSFORMS = dict(apply_real_world_transform=False, apply_modality_transform=False, apply_voi_transform=False,
+                      apply_presentation_lut=False, apply_palette_color_lut=False, apply_icc_profile=False)
+
 _NP_INTS = ('int8', 'uint8', 'int16', 'uint16', 'int32', 'uint32', 'int64', 'uint64', 'intp')
 
 
@@ -214,6 +217,21 @@ def _check_image(ctx, d, ds, fr, reqs, pending):
                 else:
                     if st == 'ok':
                         ctx.fail(case, 'out-of-range frame number accepted (wrapped?)', site=f'get_stored_frame/{name}')
+                if inrange and (as_index or d['idx'] % 2 == 0):
+                    # ---- the stored frame through get_frame / get_frames with EVERY transform switched off: the frame loop of
+                    # get_frames fetches the raw bytes itself (skeleton T1c)
+                    for what, f in (('get_frame', lambda: im.get_frame(kk, as_index=as_index, dtype=np.int64, **_NO_TRANSFORMS)),
+                                    ('get_frames', lambda: im.get_frames([kk], as_indices=as_index, dtype=np.int64, **_NO_TRANSFORMS)[0])):
+                        st5, v5 = _fetch(f)
+                        ctx.case(path=name + '/transforms-off')
+                        if st5 != 'ok' or not np.array_equal(np.asarray(v5).astype(np.int64), ref[idx].astype(np.int64)):
+                            ctx.fail(dict(case, call=what), f'{what} with every transform off does not return the stored frame: '
+                                     f'{v5 if st5 != "ok" else np.asarray(v5).reshape(-1)[:6].tolist()}', site=f'{what}/transforms-off')
+                        if what == 'get_frames' and native and d['bits'] == 1 and name in ('memory', 'lazy'):
+                            reqs.append(('getFramesBits', {'pd': list(ds.PixelData), 'rows': d['rows'], 'cols': d['cols'], 'n': n, 'k': k,
+                                                           'as_index': as_index, 'lazy': name == 'lazy'}))
+                            pending.append((dict(case, call='get_frames (transforms off) vs model'),
+                                            ('ok', [bool(x) for x in np.asarray(v5).reshape(-1)]) if st5 == 'ok' else ('err', _err_kind(v5))))
                 if inrange and d.get('junk_above_bits_stored') and d['samples'] == 1:
                     # the frame as get_frame / get_frames hand it out (no transform is described in these images) is the
                     # stored value too: their decoder has its own copy of the decode parameters
@@ -330,6 +348,12 @@ def _check_image(ctx, d, ds, fr, reqs, pending):
                              site=what + '/edit-result')
         # ---- the same requests once the whole pixel array is cached on the object (a separate code path)
         st, whole = _fetch(lambda: im.pixel_array)
+        if native and d['bits'] == 1 and name == 'lazy':
+            # the whole array of a lazily read image is assembled from get_stored_frame(1) / get_stored_frames() (T1c)
+            reqs.append(('lazyWholeBits', {'pd': list(ds.PixelData), 'rows': d['rows'], 'cols': d['cols'], 'n': n}))
+            pending.append(({'image': d, 'path': name, 'what': 'pixel_array of a lazily read image vs model'},
+                            ('ok', [[bool(x) for x in np.asarray(f).reshape(-1)] for f in np.asarray(whole).reshape((n, -1))])
+                            if st == 'ok' else ('err', _err_kind(whole))))
         if st != 'ok' or not np.array_equal(np.asarray(whole).reshape(ref.shape).astype(np.int64), ref.astype(np.int64)):
             ctx.fail({'image': d, 'path': name, 'what': 'pixel_array'}, 'pixel_array differs from pydicom', site='pixel_array')
         for as_index in (False, True):
@@ -897,6 +921,155 @@ def _byte_streams(ctx, reqs, pending):
             _fetch(rd.__exit__, None, None, None)
 
 
+def _assembled(ctx, reqs, pending):
+    """Stored frames as get_total_pixel_matrix / get_volume read them (every transform off): tiled images (8 / 16 bit, colour,
+    bit-packed with tiles that do not end on byte boundaries; TILED_FULL and TILED_SPARSE in shuffled frame order) and
+    enhanced multi-frame volumes; in memory, from bytes, lazily; before and after the whole pixel array was cached.
+    Oracle: the assembled matrix is the matrix the tiles were cut from; every slice of the volume is one stored frame,
+    each exactly once.  Model (bit-packed, untruncated tiles): `pixelsBits` for the frame behind every tile."""
+    import highdicom as hd
+    import pydicom
+    from pydicom.pixels.utils import pack_bits
+    from gen.images import to_bytes
+    from gen.sources import enhanced_multiframe, slide_image
+    for idx in range(ctx.n(24, 320)):
+        r = ctx.rng('assembled', idx)
+        nr = ctx.np_rng('assembled', idx)
+        kind = r.choice(['tpm8', 'tpm16', 'tpm1', 'tpm1', 'tpm-colour', 'volume'])
+        d = {'idx': idx, 'kind': kind}
+        if kind == 'volume':
+            n, rows, cols = r.choice([1, 2, 3, 5]), r.randint(1, 4), r.randint(2, 5)
+            ds = enhanced_multiframe(n, rows, cols, rng=nr)
+            want = None
+        else:
+            tr, tc = r.randint(1, 4), r.randint(1, 5)
+            exact = kind == 'tpm1' or r.random() < 0.4
+            nth, ntw = r.randint(1, 3), r.randint(1, 3)
+            R = nth * tr - (0 if exact else r.randint(0, tr - 1))
+            C = ntw * tc - (0 if exact else r.randint(0, tc - 1))
+            full = r.random() < 0.5
+            order = None
+            if not full:
+                order = list(range(nth * ntw))
+                r.shuffle(order)
+            ds, tpm = slide_image(R, C, tr, tc, tiled_full=full, samples=3 if kind == 'tpm-colour' else 1,
+                                  bits=16 if kind == 'tpm16' else 8, rng=nr, frame_order=order)
+            want = tpm.astype(np.int64)
+            d.update(tile=[tr, tc], total=[R, C], tiled_full=full, frame_order=order)
+            if kind == 'tpm1':
+                nfr = int(ds.NumberOfFrames)
+                fr8 = np.frombuffer(ds.PixelData, dtype=np.uint8)[:nfr * tr * tc].reshape(nfr, tr, tc)
+                ds.BitsAllocated, ds.BitsStored, ds.HighBit = 1, 1, 0
+                ds.PixelData = pack_bits((fr8 > 127).astype(np.uint8).reshape(-1), pad=True)
+                ds['PixelData'].VR = 'OB'
+                want = (tpm > 127).astype(np.int64)
+        blob = to_bytes(ds)
+        n = int(getattr(ds, 'NumberOfFrames', 1))
+        stored = pydicom.dcmread(io.BytesIO(blob)).pixel_array
+        stored = stored.reshape((n,) + stored.shape[(0 if n == 1 else 1):]).astype(np.int64)
+        for name, mk in (('memory', lambda: hd.Image.from_dataset(pydicom.dcmread(io.BytesIO(blob)), copy=False)),
+                         ('eager', lambda: hd.imread(blob)),
+                         ('lazy', lambda: hd.imread(blob, lazy_frame_retrieval=True))):
+            st, im = _fetch(mk)
+            if st != 'ok':
+                ctx.fail({'assembled': d, 'path': name}, f'could not open image: {im}', site='open/assembled')
+                continue
+            for phase in ('fresh', 'cached'):
+                if phase == 'cached':
+                    _fetch(lambda: im.pixel_array)
+                case = {'assembled': d, 'path': name, 'phase': phase}
+                ctx.case(path=f'assembled/{name}/{phase}', assembled=kind,
+                         nontrivial_key=('assembled', kind, name, phase, idx))
+                if kind == 'volume':
+                    st2, vol = _fetch(lambda: im.get_volume(dtype=np.int64, **_NO_TRANSFORMS).array)
+                    if st2 != 'ok':
+                        ctx.fail(case, f'get_volume with every transform off refused: {vol}', site='get_volume/stored')
+                        continue
+                    vol = np.asarray(vol)
+                    hits = [[j for j in range(n) if np.array_equal(vol[q].reshape(stored[j].shape), stored[j])] for q in range(vol.shape[0])]
+                    distinct = all(not np.array_equal(stored[a], stored[b]) for a in range(n) for b in range(a + 1, n))
+                    if vol.shape[0] != n or any(not h for h in hits) or (distinct and sorted(h[0] for h in hits) != list(range(n))):
+                        ctx.fail(case, 'the slices of the volume (transforms off) are not the stored frames, each exactly once',
+                                 site='get_volume/stored')
+                    continue
+                st2, mat = _fetch(lambda: im.get_total_pixel_matrix(dtype=np.int64, **_NO_TRANSFORMS))
+                if st2 != 'ok' or not np.array_equal(np.asarray(mat).reshape(want.shape), want):
+                    ctx.fail(case, f'total pixel matrix with every transform off is not the matrix the tiles were cut from: '
+                                   f'{mat if st2 != "ok" else np.asarray(mat).tolist()}', site='get_total_pixel_matrix/stored')
+                    continue
+                if kind == 'tpm1' and phase == 'fresh' and name in ('memory', 'lazy'):
+                    mat = np.asarray(mat)
+                    tiles = [(a, b) for a in range(nth) for b in range(ntw)]
+                    if order is not None:
+                        tiles = [tiles[q] for q in order]
+                    for f, (a, b) in enumerate(tiles):
+                        reqs.append(('pixelsBits', {'pd': list(ds.PixelData), 'rows': tr, 'cols': tc, 'n': n, 'idx': f, 'lazy': name == 'lazy'}))
+                        pending.append((dict(case, frame_index=f, what='tile of the assembled matrix vs the frame the loop fetches (model)'),
+                                        ('ok', [bool(x) for x in mat[a * tr:(a + 1) * tr, b * tc:(b + 1) * tc].reshape(-1)])))
+    # the cached branch of the two loops on a single-frame image: only frame_index 0 exists
+    for n in (1, 2, 3):
+        for idxq in range(-1, n + 1):
+            for pixels in (False, True):
+                reqs.append(('loopCached', {'n': n, 'idx': idxq, 'pixels': pixels}))
+                want = ('ok', idxq) if 0 <= idxq < n else (('ok', n + idxq) if (n != 1 and -n <= idxq < 0) else ('err', 'index'))
+                pending.append(({'what': 'cached branch of the frame loops (python subscript semantics)', 'n': n, 'idx': idxq, 'layer': 'L2'}, want))
+
+
+def _histories(ctx, reqs, pending):
+    """Histories on ONE in-memory native bit-packed image against the state machine of Model/FramePaths.lean: fetches (single
+    and batch method, numbers and indices, in and out of range), whole-array accesses and replacements of the PixelData
+    value in any order.  Oracle: every accepted fetch returns the frame of the pixel data the object holds at that moment."""
+    import highdicom as hd
+    import pydicom
+    from pydicom.pixels.utils import pack_bits, unpack_bits
+    from pydicom.uid import ExplicitVRLittleEndian
+    from gen.images import multiframe_image, to_bytes
+    for idx in range(ctx.n(30, 400)):
+        r = ctx.rng('history', idx)
+        nr = ctx.np_rng('history', idx)
+        n, rows, cols = r.choice([1, 2, 3, 5]), r.randint(1, 4), r.randint(1, 5)
+        fr = nr.random((n, rows, cols)) < 0.5
+        ds = multiframe_image(fr, 1, ExplicitVRLittleEndian)
+        st, im = _fetch(lambda: hd.Image.from_dataset(pydicom.dcmread(io.BytesIO(to_bytes(ds))), copy=False))
+        if st != 'ok':
+            ctx.fail({'history': idx}, f'could not open image: {im}', site='open/history')
+            continue
+        pd0 = list(im.PixelData)
+        cur = np.array(fr)
+        ops, impl = [], []
+        d = {'idx': idx, 'frames': n, 'rows': rows, 'cols': cols}
+        for step in range(r.randint(3, 9)):
+            u = r.random()
+            if u < 0.55:
+                ai, batch = r.random() < 0.5, r.random() < 0.5
+                k = r.randint(-1, n + 1)
+                stq, v = _fetch((lambda: im.get_stored_frames([k], as_indices=ai)[0]) if batch else (lambda: im.get_stored_frame(k, as_index=ai)))
+                ops.append({'op': 'fetch', 'k': k, 'as_index': ai, 'batch': batch})
+                impl.append({'ok': [bool(x) for x in np.asarray(v).reshape(-1)]} if stq == 'ok' else {'err': _err_kind(v)})
+                i0 = k if ai else k - 1
+                ctx.case(path='history/fetch', history_step='batch' if batch else 'single', inrange=0 <= i0 < n)
+                if 0 <= i0 < n:
+                    if stq != 'ok' or not np.array_equal(np.asarray(v).astype(bool), cur[i0]):
+                        ctx.fail({'history': d, 'ops': ops}, 'fetch does not return the frame of the pixel data the object holds now'
+                                 if stq == 'ok' else f'in-range fetch refused: {v}', site='get_stored_frame/history')
+                elif stq == 'ok':
+                    ctx.fail({'history': d, 'ops': ops}, 'out-of-range fetch accepted', site='get_stored_frame/history')
+            elif u < 0.75:
+                stq, v = _fetch(lambda: im.pixel_array)
+                ops.append({'op': 'whole'})
+                ctx.case(path='history/whole', history_step='whole')
+                if stq != 'ok' or not np.array_equal(np.asarray(v).reshape(cur.shape).astype(bool), cur):
+                    ctx.fail({'history': d, 'ops': ops}, 'pixel_array is not the pixel data the object holds now', site='pixel_array/history')
+            else:
+                cur = np.array(nr.random((n, rows, cols)) < 0.5) if r.random() < 0.5 else np.ascontiguousarray(cur[::-1])
+                new = pack_bits(cur.astype(np.uint8).reshape(-1), pad=True)
+                im['PixelData'].value = new
+                ops.append({'op': 'replace', 'pd': list(new)})
+                ctx.case(path='history/replace', history_step='replace')
+        reqs.append(('history', {'pd': pd0, 'rows': rows, 'cols': cols, 'n': n, 'ops': ops}))
+        pending.append(({'history': d, 'ops': ops, 'what': 'answers of the fetches of a history vs the state machine'}, ('ok', impl)))
+
+
 def run(ctx):
     reqs, pending = [], []
     _helpers(ctx, reqs, pending)
@@ -904,6 +1077,8 @@ def run(ctx):
     _encapsulated(ctx, reqs, pending)
     _synthetic_fragments(ctx, reqs, pending)
     _byte_streams(ctx, reqs, pending)
+    _assembled(ctx, reqs, pending)
+    _histories(ctx, reqs, pending)
     for d, ds, fr in _images(ctx):
         _check_image(ctx, d, ds, fr, reqs, pending)
     _fixtures(ctx)
@@ -937,7 +1112,7 @@ def replay(ctx, case):
     def key(c):
         if not isinstance(c, dict):
             return None
-        for k in ('image', 'enc', 'syn', 'bytes'):
+        for k in ('image', 'enc', 'syn', 'bytes', 'assembled', 'history'):
             if k in c and isinstance(c[k], dict):
                 return (k, c[k].get('idx'), c[k].get('colour'), c.get('path', '').split('/')[0])
         if 'fixture' in c:
